@@ -7,6 +7,7 @@ serialises through codec.  The interpreter executes each step against the real o
 """
 import gc
 import operator
+from datetime import date as _date, datetime as _datetime
 import warnings
 import weakref
 
@@ -72,7 +73,7 @@ OP_CLASSES = {
     "write": ["set_int", "set_int", "set_slice", "set_mask", "set_index", "tset_cell", "tset_row", "tset_col", "tset_region",
               "attr_assign", "attr_assign"],
     "rename": ["rename_vec", "alias", "rename_column", "rename_columns"],
-    "lifetime": ["drop", "drop_cycle", "gc", "churn"],
+    "lifetime": ["drop", "drop_cycle", "gc", "churn", "drop_tuple"],
 }
 ALL_OPS = sorted({o for v in OP_CLASSES.values() for o in v})
 
@@ -234,6 +235,8 @@ class World:
         si = StepInfo("vec_list", "construct")
         n = self.length_for(step[1])
         vals = self.vals(step, n)
+        if step[3] % 7 == 6:
+            vals = [_date(2020, 1, 1 + (i % 27)) for i in range(n)]       # a date vector (date -> datetime promotion path)
         name = VNAMES[step[3] % len(VNAMES)]
         si.info.update(values=vals, name=name)
         self._result(si, self._do(si, lambda: S.Vector(list(vals), name=name)), "fresh")
@@ -245,7 +248,10 @@ class World:
         k = step[1] % 2
         if k not in self.tuples:
             n = self.length_for(step[2])
-            self.tuples[k] = (tuple(self.vals(step, n)), self.new_token())
+            vals = self.vals(step, n)
+            if step[3] % 2 == 1:
+                vals = [_date(2024, 1, 1 + (i % 27)) for i in range(n)]
+            self.tuples[k] = (tuple(vals), self.new_token())
         tup, tok = self.tuples[k]
         v = self._do(si, lambda: S.Vector(tup))
         e = self._result(si, v, "tuple")
@@ -673,6 +679,8 @@ class World:
     # =============================================================== writes
     def _assign_value(self, step, m, kind_hint=None):
         """scalar or list of m values taken from the step payload"""
+        if kind_hint is _date:
+            return ("scalar", _datetime(2021, 2, 3, 4, 5) if step[2] % 2 == 0 else _date(2022, 3, 4))
         if step[3] % 5 == 0 and step[2] % 2 == 0:
             return ("scalar", None)          # None writes are common, not exceptional
         if step[5] or m == 0:
@@ -686,7 +694,8 @@ class World:
             return None
         n = len(a.obj)
         key, m, positions = key_of(n)
-        form, val = self._assign_value(step, m)
+        sc = a.obj.schema()
+        form, val = self._assign_value(step, m, sc.kind if sc is not None else None)
         wrong_len = (step[3] % 7 == 0) and form == "list"
         if wrong_len:
             val = val + [0]
@@ -890,6 +899,12 @@ class World:
         self.cycles.append((a.id, weakref.ref(a.obj), a.token))
         a.obj = None
         del cyc
+        return si
+
+    def op_drop_tuple(self, step):
+        """the caller lets go of one of its tuples (vectors built over it keep it alive as long as they use it)"""
+        si = StepInfo("drop_tuple", "lifetime")
+        self.tuples.pop(step[1] % 2, None)
         return si
 
     def op_gc(self, step):
